@@ -115,6 +115,7 @@ def node_failures(sp, dt):
 
 
 def check_tree(case):
+    LO.set_container(case.get("ct"))
     r = R()
     sp, dt = case["tree"], case["dtype"]
     fails = node_failures(sp, dt)
@@ -223,6 +224,7 @@ def pair_failures(sp, dt, pseed):
 
 
 def check_big(case):
+    LO.set_container(case.get("ct"))
     r = R()
     sp, dt = case["tree"], case["dtype"]
     fails = [f for f in pair_failures(sp, dt, case["pseed"]) if f != "unbuildable"]
